@@ -32,6 +32,10 @@ import (
 //	               auth message): HMAC(HMAC("", "Server Key"), "")
 //	empty          an empty challenge
 //	junk           a challenge that is neither r=.. nor v=..
+//	first-ok-ext   a valid server-first with an optional extension attribute after the iteration
+//	               count (",x=ext"); the AuthMessage contains it as sent
+//	final-noext    a server-final signed with the right key over the exchange's messages with
+//	               that extension attribute left out: valid only if there was none
 //	final-lastconn the server-final an honest server sent on an earlier connection (a recorded
 //	               signature, replayed); degrades to final-other when there was none
 //	hangup         the connection is dropped instead of an answer
@@ -159,6 +163,31 @@ func (ad *adversary) Step(resp []byte, has bool) StepOut {
 			// no client-first seen yet: nothing can be valid; play a foreign nonce
 			msg = "r=QWxsIHlvdXIgYmFzZQ" + suffix + ",s=" + salt64 + ",i=" + strconv.Itoa(ad.iter())
 			st.Sym = "first-foreign"
+		}
+	case "first-ok-ext":
+		if ad.cn != "" {
+			msg = "r=" + ad.cn + suffix + ",s=" + salt64 + ",i=" + strconv.Itoa(ad.iter()) + ",x=ext"
+			ad.first = msg
+			ad.final = ""
+			st.Valid = true
+			st.Sym = "first-ok" // a valid server-first like any other, as far as the oracle goes
+		} else {
+			msg = "r=QWxsIHlvdXIgYmFzZQ" + suffix + ",s=" + salt64 + ",i=" + strconv.Itoa(ad.iter()) + ",x=ext"
+			st.Sym = "first-foreign"
+		}
+	case "final-noext":
+		if ad.first != "" && ad.final != "" {
+			_, _, sk := ScramKeys(ad.h, ad.a.Pass, ad.a.Salt, ad.iter())
+			stripped := strings.TrimSuffix(ad.first, ",x=ext")
+			msg = "v=" + base64.StdEncoding.EncodeToString(hm(ad.h, sk, []byte(ad.bare+","+stripped+","+ad.final)))
+			if stripped == ad.first {
+				st.Valid = true
+				st.Sym = "final-ok"
+			}
+		} else {
+			st.Sym = "final-other"
+			_, _, sk := ScramKeys(ad.h, "some-other-password", []byte("othersalt"), 2)
+			msg = "v=" + base64.StdEncoding.EncodeToString(hm(ad.h, sk, []byte("another exchange")))
 		}
 	case "first-foreign":
 		// a nonce of exactly the length of the client's, sharing no prefix with it (a foreign
